@@ -87,6 +87,9 @@ func (w *World) BootConsumer(consumerID string, pr *Probes, tweak ConsumerGenesi
 	if tweak != nil {
 		tweak(&gen)
 	}
+	if w.Cfg.TransferTimeout > 0 {
+		gen.Params.TransferTimeoutPeriod = w.Cfg.TransferTimeout
+	}
 	if w.Cfg.RetryDelay > 0 {
 		gen.Params.RetryDelayPeriod = w.Cfg.RetryDelay
 	}
